@@ -191,6 +191,15 @@ def main(argv):
         corpus_n = len(arg_lines)
         rng = random.Random('%s/%d/%s' % (pid, seed, tier))
         arg_lines += list(mod.generate(tier, rng))
+        if tier == 'thorough':
+            # the thorough tier repeats the random part with further generator seeds (exhaustive lines are de-duplicated)
+            seen = set(arg_lines)
+            for k in range(1, int(os.environ.get('VERIF_THOROUGH_ROUNDS', '4'))):
+                rng_x = random.Random('%s/%d/%s' % (pid, seed + 10000 * k, tier))
+                for l in mod.generate(tier, rng_x):
+                    if l not in seen:
+                        seen.add(l); arg_lines.append(l)
+            del seen
         changed = source_changed()
         if changed and tier == 'quick':
             # the source differs from the tree the model was validated against: triple the quick budget
